@@ -1,4 +1,4 @@
 SPECIFICATION Spec
-CONSTANTS N = 2  E = 1  A = 1  I = 1  ObjL = 2  ML = 1  K = 2  MaxI = 2  MaxN = 4  Fam = {"typing", "lax", "laws", "deriv"}  Q = 1
+CONSTANTS N = 2  E = 1  A = 1  I = 1  ObjL = 2  ML = 1  K = 2  MaxI = 2  MaxN = 4  Fam = {"typing", "lax", "laws", "deriv"}  Q = 1  OL = {0}
 INVARIANTS TypingTheorem FunctorialityTheorem ChainRule
 CHECK_DEADLOCK FALSE
